@@ -215,3 +215,40 @@ by rewrite quad_refines // ES; apply: denominator_ge1.
 Qed.
 
 End Refine.
+
+(* ---- agent level: the property's sentence, for every public history, over any real field ---- *)
+From AgileV Require Import C19.Proofs.
+
+Section AgentLevel.
+Variable F : realFieldType.
+Variable lam : F.
+Hypothesis lam_gt0 : 0 < lam.
+
+(* every decision hands in a feature vector of the current size (numel) *)
+Fixpoint feats_ok (g : nat * seq (seq F)) (ops : seq (@op F)) : bool :=
+  if ops is o :: r then
+    (if o is Act v then size v == g.1 else true) && feats_ok (seg_step g o) r
+  else true.
+
+Lemma feats_ok_all ops : forall g, feats_ok g ops -> all (fun v => size v == g.1) g.2 ->
+  all (fun v => size v == (List.fold_left seg_step ops g).1) (List.fold_left seg_step ops g).2.
+Proof.
+elim: ops => [|o ops IH] g //= /andP [Ho Hr] Hg; apply: IH => //.
+by case: o Ho {Hr} => //= v sv; rewrite all_cat Hg /= sv.
+Qed.
+
+Theorem agent_gram_inverse (ly : layer) (ops : seq (@op F)) (rr : bool) :
+  List.forallb no_resize ops = true -> feats_ok (layer_numel ly, [::]) ops ->
+  let n := (segment ly ops).1 in
+  let vs := (segment ly ops).2 in
+  let S := sig (run 0 1 +%R (@fsub F) *%R (@fdiv F) rr (init_params 0 1 (@fdiv F) lam ly) ops) in
+  [/\ mx_of n (Model.gram 0 +%R *%R lam n vs) *m mx_of n S = 1%:M,
+      (mx_of n S)^T = mx_of n S
+    & forall g, size g = n -> 0 <= Model.quad 0 +%R *%R S g].
+Proof.
+move=> Hnr Hok n vs S.
+have E : S = sigma_run 0 1 +%R (@fsub F) *%R (@fdiv F) lam n vs by rewrite /S agent_sigma_is_run.
+rewrite E; apply: model_gram_inverse => //.
+exact: (feats_ok_all Hok).
+Qed.
+End AgentLevel.
